@@ -183,12 +183,55 @@ def run(rep, tier):
     wj = F.one(X + "WRITE_JOBS")
     rep.analysed(wj)
     gw = CFG(wj)
-    cl = [n for n in wj.walk() if n.get("k") == "mcall" and (n.get("callee") or "").endswith("::close")]
-    strs = [x["v"] for x in wj.walk() if x.get("k") == "str"]
-    ok = len(cl) == 1 and all(gw.dominates_block(gw.where[cl[0]["id"]][0], b) for b in gw.exit_blocks()) and "<jobs>" in strs and "</jobs>" in strs
-    loops = [n for n in wj.walk() if n.get("k") == "rangefor"]
-    ok = ok and len(loops) == 1 and nows(show(loops[0]["range"])) == wj.j["params"][0]["name"]
-    rep.check(ok, "R10.3", "write-complete", "<jobs> + every job + </jobs>, stream closed before returning", "WRITE_JOBS does not write a complete document and close the stream on every path", wj.loc())
+    jp = wj.j["params"][0]["name"]
+
+    def stream_of(n):
+        """declaration of the stream a `<<` chain or a ToStream call writes to"""
+        n = unwrap(n)
+        while n.get("k") == "opcall" and n.get("op") == "<<":
+            n = unwrap(n["args"][0])
+        return n.get("decl") if n.get("k") == "ref" else None
+
+    def top_shl(lit):
+        """outermost `<<` expression containing the literal"""
+        tops = [a_ for a_ in wj.ancestors(lit) if a_.get("k") == "opcall" and a_.get("op") == "<<"]
+        return tops[-1] if tops else None
+    lits = {x["v"]: x for x in wj.walk() if x.get("k") == "str" and x.get("v") in ("<jobs>", "</jobs>")}
+    ok, why_w = set(lits) == {"<jobs>", "</jobs>"}, "the <jobs> / </jobs> tags are not both written"
+    if ok:
+        o_, c_ = top_shl(lits["<jobs>"]), top_shl(lits["</jobs>"])
+        ok, why_w = o_ is not None and c_ is not None and stream_of(o_) is not None and stream_of(o_) == stream_of(c_), "the two tags are not written to one stream"
+    if ok:
+        sd = stream_of(o_)
+        local = sd in wj.decls and "ofstream" in (wj.decls[sd].get("type") or "")
+        # every job: a range-for over the job list, or std::for_each over [begin, end) of it, whose body streams the element to the same stream
+        its = []
+        for n in wj.walk():
+            body, rng_ok = None, False
+            if n.get("k") == "rangefor":
+                body, rng_ok = n["body"], nows(show(n["range"])) == jp
+            elif n.get("k") == "call" and (n.get("callee") or "").endswith("std::for_each") and len(n.get("args", [])) == 3:
+                a0, a1, a2 = [unwrap(x) for x in n["args"]]
+                rng_ok = nows(show(a0)) == jp + ".begin()" and nows(show(a1)) == jp + ".end()"
+                body = a2 if a2.get("k") == "lambda" else None
+            if body is None:
+                continue
+            ts = [x for x in walk(body) if x.get("k") == "mcall" and (x.get("callee") or "").endswith("Job::ToStream") and x.get("args") and stream_of(x["args"][0]) == sd]
+            if ts:
+                its.append((ts[0] if n.get("k") == "rangefor" else n, rng_ok))
+        ok, why_w = len(its) == 1 and its[0][1], "the jobs are not all streamed between the tags (iterations found: %d)" % len(its)
+    if ok:
+        it = its[0][0]
+        (ib, ii), (cb, ci) = gw.where[it["id"]], gw.where[c_["id"]]
+        after_close = gw.reaches([x for x in gw.succs[cb] if x is not None])
+        ok = gw.dominates(o_["id"], it["id"]) and gw.dominates(o_["id"], c_["id"]) and ib not in after_close and not (ib == cb and ii > ci) and \
+            all(gw.dominates_block(cb, b_) for b_ in gw.exit_blocks())
+        why_w = "the order <jobs>, every job, </jobs> does not hold on every path to a normal return"
+    if ok:
+        cl = [n for n in wj.walk() if n.get("k") == "mcall" and (n.get("callee") or "").endswith("::close") and stream_of(n.get("obj")) == sd]
+        ok = local or (len(cl) >= 1 and all(any(gw.dominates_block(gw.where[c["id"]][0], b_) for c in cl) for b_ in gw.exit_blocks()))
+        why_w = "the stream is neither a local object (closed by its destructor) nor closed on every path"
+    rep.check(ok, "R10.3", "write-complete", "<jobs> + every job + </jobs>, stream closed before returning", "WRITE_JOBS: " + why_w, wj.loc())
 
     # ---------------------------------------------------------------- R10.4
     sites = []
